@@ -51,6 +51,7 @@ Date(s) == [t |-> "date", s |-> s, fn |-> 0, fd |-> 1]
 DateT(s, fn, fd) == [t |-> "date", s |-> s, fn |-> fn, fd |-> fd]
 Arr(rows) == [t |-> "arr", v |-> rows]
 AnyErr  == [t |-> "anyerr"]
+NoExc   == [t |-> "noexc"]      \* expected-only: a value or an Excel error value, never a Python exception
 Open    == [t |-> "open"]
 
 RECURSIVE ConcatRange(_, _, _)
@@ -192,7 +193,8 @@ ToNum(x) ==
     CASE x.t = "num"   -> x
       [] x.t = "bool"  -> IF x.v THEN Whole(1) ELSE Whole(0)
       [] x.t = "blank" -> Whole(0)
-      [] x.t = "date"  -> IF x.fn = 0 THEN Whole(x.s) ELSE RAdd(Whole(x.s), Rat(x.fn, x.fd))
+      [] x.t = "date"  -> IF x.fn = 0 THEN Whole(x.s)
+                          ELSE IF x.s <= 1000000000 \div x.fd THEN Rat(x.s * x.fd + x.fn, x.fd) ELSE Open
       [] x.t = "txt"   -> LET r == TextToNum(x.v) IN IF r.t = "notnum" THEN Err("#VALUE!") ELSE r
       [] x.t = "err"   -> x
       [] OTHER         -> Open
@@ -228,7 +230,9 @@ AnyOpen(args) == \E i \in 1..Len(args) : args[i].t = "open"
 NumBin(a, b, F(_, _)) ==
     IF a.t = "open" THEN Open            \* an undetermined left operand may itself be an error that would win
     ELSE IF a.t = "err" THEN a
-    ELSE IF b.t = "err" THEN b
+    \* an error operand on the right is the result - unless the left operand would itself fail to convert,
+    \* in which case only "an error" is demanded (which of the two is reported first is left open)
+    ELSE IF b.t = "err" THEN (IF a.t = "arr" THEN Open ELSE IF ToNum(a).t = "err" THEN AnyErr ELSE IF ToNum(a).t = "open" THEN Open ELSE b)
     ELSE IF b.t = "open" \/ a.t = "arr" \/ b.t = "arr" THEN Open
     ELSE LET x == ToNum(a)  y == ToNum(b) IN
          IF x.t = "err" THEN x
@@ -239,7 +243,10 @@ NumBin(a, b, F(_, _)) ==
 OpAdd(a, b) == NumBin(a, b, RAdd)
 OpSub(a, b) == NumBin(a, b, RSub)
 OpMul(a, b) == NumBin(a, b, RMul)
-OpDiv(a, b) == NumBin(a, b, LAMBDA x, y : IF y.n = 0 THEN Err("#DIV/0!") ELSE RDiv(x, y))
+\* a left operand that cannot be converted AND a zero divisor: #VALUE! or #DIV/0!, which one is left open
+OpDiv(a, b) == IF a.t \notin {"err", "open", "arr"} /\ b.t \notin {"err", "open", "arr"}
+                  /\ ToNum(a).t = "err" /\ ToNum(b).t = "num" /\ ToNum(b).n = 0 THEN AnyErr
+               ELSE NumBin(a, b, LAMBDA x, y : IF y.n = 0 THEN Err("#DIV/0!") ELSE RDiv(x, y))
 
 \* x ^ y : determined for whole exponents of small size.  0^0 and 0^negative,
 \* negative base with fractional exponent, and anything irrational are Open
@@ -292,7 +299,8 @@ Cmp3NB(a, b) ==
     IF Rank(a) # Rank(b) THEN (IF Rank(a) < Rank(b) THEN -1 ELSE 1)
     ELSE IF Rank(a) = 0 THEN
             LET x == ToNum(a)  y == ToNum(b) IN
-            IF x.t # "num" \/ y.t # "num" \/ ~SafeNum(x) \/ ~SafeNum(y) THEN 2
+            IF x.t # "num" \/ y.t # "num" THEN 2
+            ELSE IF ~(Abs(x.n) <= 2000000000 \div y.d /\ Abs(y.n) <= 2000000000 \div x.d) THEN 2      \* cross products must fit
             ELSE IF REq(x, y) THEN 0 ELSE IF RLt(x, y) THEN -1 ELSE 1
     ELSE IF Rank(a) = 1 THEN
             LET x == UpperSeq(a.v)  y == UpperSeq(b.v) IN
@@ -377,5 +385,6 @@ TArg(x) == ToText(x).v        \* after Guard: code points
 Agrees(obs, exp) ==
     CASE exp.t = "open"   -> TRUE
       [] exp.t = "anyerr" -> obs.t = "err"
+      [] exp.t = "noexc"  -> obs.t \in {"num", "txt", "bool", "blank", "date", "err", "float", "arr"}
       [] OTHER            -> SameVal(obs, exp)
 =============================================================================
